@@ -1,0 +1,874 @@
+//! Verification hooks (cargo feature `verif`, off by default).
+//!
+//! This module lets an external model-checking harness drive the *real* server core
+//! (`Core` + reactor + scheduler) and the *real* worker state machine in-process, over
+//! in-memory FIFO channels instead of TCP, one message at a time. It adds no behaviour of
+//! its own: every transition is a call of the shipped handler. The only glue is
+//!
+//! * the registration / removal blocks of `worker_rpc_loop` (`SimServer::connect_worker`,
+//!   `SimServer::lose_worker`),
+//! * the body of `scheduler_loop` without its sleeps (`SimServer::run_scheduling`),
+//! * the state construction of `run_worker` (`SimWorker::new`),
+//!
+//! each mirrored line by line from the function named. Everything else is plain-data
+//! snapshots.
+
+use crate::control::ServerRef;
+use crate::gateway::LostWorkerReason;
+use crate::internal::common::resources::map::ResourceIdMap;
+use crate::internal::messages::worker::{
+    FromWorkerMessage, NewWorkerMsg, ToWorkerMessage, WorkerRegistrationResponse, WorkerStopReason,
+};
+use crate::internal::scheduler::{
+    OneOrMoreTaskIds, SchedulerConfig, SchedulerResult, SchedulingSolution, create_task_batches,
+    create_task_mapping, run_scheduling_solver,
+};
+use crate::internal::server::comm::CommSenderRef;
+use crate::internal::server::core::{Core, CoreRef};
+use crate::internal::server::reactor::{on_new_worker, on_remove_worker};
+use crate::internal::server::rpc::worker_receive_loop;
+use crate::internal::server::task::TaskRuntimeState;
+use crate::internal::server::worker::{DEFAULT_WORKER_OVERVIEW_INTERVAL, Worker, WorkerAssignment};
+use crate::internal::transfer::auth::{deserialize, serialize};
+use crate::internal::worker::comm::WorkerComm;
+use crate::internal::worker::configuration::{WorkerConfiguration, sync_worker_configuration};
+use crate::internal::worker::rpc::process_worker_message;
+use crate::internal::worker::state::WorkerStateRef;
+use crate::launcher::TaskLauncher;
+use crate::{Map, TaskId, WorkerId};
+use bytes::{Bytes, BytesMut};
+use futures::FutureExt;
+use std::rc::Rc;
+use std::time::{Duration, Instant};
+use tokio::sync::Notify;
+use tokio::sync::mpsc::UnboundedReceiver;
+
+pub use crate::internal::messages::common::TaskFailInfo;
+pub use crate::internal::messages::worker as messages;
+pub use crate::internal::worker::resources::concise::verif::ConciseSnap;
+pub use crate::internal::worker::resources::pool::verif::PoolSnap;
+pub use crate::internal::worker::resources::verif::{
+    AllocationSnap, AllocatorProbe, allocation_snapshot,
+};
+
+// ---------------------------------------------------------------------------------------------
+// Snapshots (plain data, collections in the iteration order of the real containers)
+// ---------------------------------------------------------------------------------------------
+
+#[derive(Debug, Clone, PartialEq, Eq, Hash, serde::Serialize)]
+pub enum TaskStateSnap {
+    Waiting { unfinished_deps: u32 },
+    Assigned { worker: u32, rv: u8 },
+    Prefilled { worker: u32 },
+    Retracting { worker: u32 },
+    Running { worker: u32, rv: u8 },
+    RunningMultiNode(Vec<u32>),
+    Finished,
+}
+
+#[derive(Debug, Clone, PartialEq, Eq, Hash, serde::Serialize)]
+pub struct TaskSnap {
+    pub id: TaskId,
+    pub state: TaskStateSnap,
+    pub consumers: Vec<TaskId>,
+    pub deps: Vec<TaskId>,
+    pub rq_id: u32,
+    pub user_priority: String,
+    pub instance_id: u32,
+    pub crash_counter: u32,
+    pub crash_limit: String,
+    pub time_limit_ms: Option<u64>,
+}
+
+#[derive(Debug, Clone, PartialEq, Eq, Hash, serde::Serialize)]
+pub enum AssignmentSnap {
+    Sn {
+        assigned: Vec<TaskId>,
+        free: Vec<u64>,
+        prefilled: Vec<TaskId>,
+    },
+    Mn {
+        task: TaskId,
+        is_root: bool,
+    },
+}
+
+#[derive(Debug, Clone, PartialEq, Eq, Hash, serde::Serialize)]
+pub struct ServerWorkerSnap {
+    pub id: u32,
+    pub resources: Vec<u64>,
+    pub assignment: AssignmentSnap,
+    pub blocked: Vec<(u32, u8)>,
+    pub group: String,
+    pub stopping: bool,
+    pub reserved: bool,
+    /// termination time relative to the simulated epoch, in ms
+    pub termination_ms: Option<u64>,
+}
+
+#[derive(Debug, Clone, PartialEq, Eq, Hash, serde::Serialize)]
+pub struct QueueSnap {
+    pub rq_id: u32,
+    /// (priority, ids) in queue order (descending priority, ascending id)
+    pub queue: Vec<(u64, Vec<TaskId>)>,
+    pub prefill: Option<(u64, Vec<TaskId>)>,
+}
+
+#[derive(Debug, Clone, PartialEq, Eq, Hash, serde::Serialize)]
+pub struct CoreSnapshot {
+    pub tasks: Vec<TaskSnap>,
+    pub workers: Vec<ServerWorkerSnap>,
+    pub queues: Vec<QueueSnap>,
+    pub redirects: Vec<(TaskId, u32, u8)>,
+    pub groups: Vec<(String, Vec<u32>)>,
+    /// Debug rendering of every registered request (id = position)
+    pub requests: Vec<String>,
+    pub resource_names: Vec<String>,
+    pub worker_id_counter: u32,
+    pub scheduling_flag: bool,
+    pub comm_workers: Vec<u32>,
+}
+
+fn priority_num(p: crate::Priority) -> u64 {
+    // Priority is a newtype over u64 that serializes transparently
+    serde_json::to_value(p).unwrap().as_u64().unwrap()
+}
+
+fn core_snapshot(core: &Core, comm_workers: Vec<u32>, flag: bool, epoch: Instant) -> CoreSnapshot {
+    let tasks = core
+        .task_map()
+        .tasks()
+        .map(|t| TaskSnap {
+            id: t.id,
+            state: match &t.state {
+                TaskRuntimeState::Waiting { unfinished_deps } => TaskStateSnap::Waiting {
+                    unfinished_deps: *unfinished_deps,
+                },
+                TaskRuntimeState::Assigned { worker_id, rv_id } => TaskStateSnap::Assigned {
+                    worker: worker_id.as_num(),
+                    rv: rv_id.as_num(),
+                },
+                TaskRuntimeState::Prefilled { worker_id } => TaskStateSnap::Prefilled {
+                    worker: worker_id.as_num(),
+                },
+                TaskRuntimeState::Retracting { worker_id } => TaskStateSnap::Retracting {
+                    worker: worker_id.as_num(),
+                },
+                TaskRuntimeState::Running { worker_id, rv_id } => TaskStateSnap::Running {
+                    worker: worker_id.as_num(),
+                    rv: rv_id.as_num(),
+                },
+                TaskRuntimeState::RunningMultiNode(ws) => {
+                    TaskStateSnap::RunningMultiNode(ws.iter().map(|w| w.as_num()).collect())
+                }
+                TaskRuntimeState::Finished => TaskStateSnap::Finished,
+            },
+            consumers: t.get_consumers().iter().copied().collect(),
+            deps: t.task_deps.iter().copied().collect(),
+            rq_id: t.resource_rq_id.as_num(),
+            user_priority: t.configuration.user_priority.to_string(),
+            instance_id: t.instance_id.as_num(),
+            crash_counter: t.crash_counter,
+            crash_limit: t.configuration.crash_limit.to_string(),
+            time_limit_ms: t.configuration.time_limit.map(|d| d.as_millis() as u64),
+        })
+        .collect();
+
+    let workers = core
+        .get_workers()
+        .map(|w| ServerWorkerSnap {
+            id: w.id.as_num(),
+            resources: w
+                .resources
+                .iter_amounts()
+                .map(|a| a.total_fractions())
+                .collect(),
+            assignment: match w.assignment() {
+                WorkerAssignment::Sn(a) => AssignmentSnap::Sn {
+                    assigned: a.assigned_tasks.iter().copied().collect(),
+                    free: a
+                        .free_resources
+                        .iter_amounts()
+                        .map(|a| a.total_fractions())
+                        .collect(),
+                    prefilled: a.prefilled_tasks.iter().copied().collect(),
+                },
+                WorkerAssignment::Mn(m) => AssignmentSnap::Mn {
+                    task: m.task_id,
+                    is_root: m.is_root,
+                },
+            },
+            blocked: w
+                .blocked_requests
+                .iter()
+                .map(|(rq, rv)| (rq.as_num(), rv.as_num()))
+                .collect(),
+            group: w.configuration.group.clone(),
+            stopping: w.is_stopping(),
+            reserved: w.is_reserved(),
+            termination_ms: w
+                .termination_time
+                .map(|t| t.saturating_duration_since(epoch).as_millis() as u64),
+        })
+        .collect();
+
+    let split = core.split();
+    let queues = split
+        .task_queues
+        .iter()
+        .map(|q| QueueSnap {
+            rq_id: q.resource_rq_id.as_num(),
+            queue: q
+                .queue
+                .iter()
+                .map(|(p, ids)| {
+                    (
+                        priority_num(p.0),
+                        match ids {
+                            OneOrMoreTaskIds::One(t) => vec![*t],
+                            OneOrMoreTaskIds::More(ts) => ts.iter().copied().collect(),
+                        },
+                    )
+                })
+                .collect(),
+            prefill: q
+                .prefill
+                .as_ref()
+                .map(|(p, ts)| (priority_num(*p), ts.iter().copied().collect())),
+        })
+        .collect();
+    let redirects = split
+        .scheduler_state
+        .redirects
+        .iter()
+        .map(|(t, (w, rv))| (*t, w.as_num(), rv.as_num()))
+        .collect();
+    let groups = core
+        .worker_groups()
+        .iter()
+        .map(|(name, g)| (name.clone(), g.worker_ids().map(|w| w.as_num()).collect()))
+        .collect();
+    let requests = core
+        .get_resource_rq_map()
+        .iter()
+        .map(|r| format!("{r:?}"))
+        .collect();
+    CoreSnapshot {
+        tasks,
+        workers,
+        queues,
+        redirects,
+        groups,
+        requests,
+        resource_names: core.create_resource_map().into_vec(),
+        worker_id_counter: core.worker_counter(),
+        scheduling_flag: flag,
+        comm_workers,
+    }
+}
+
+// ---------------------------------------------------------------------------------------------
+// Scheduling memo
+// ---------------------------------------------------------------------------------------------
+
+struct SchedMemo {
+    table: Map<u128, SchedulingSolution>,
+    hits: u64,
+    misses: u64,
+    audits: u64,
+    audit_every: u64,
+    audit_failures: u64,
+    solve_nanos: u64,
+}
+
+/// The memo is shared by all explorer threads of the process (a solve is a deterministic
+/// function of the snapshot); whether it is consulted is a per-thread switch.
+static SCHED_MEMO: std::sync::Mutex<Option<SchedMemo>> = std::sync::Mutex::new(None);
+
+thread_local! {
+    static MEMO_ENABLED: std::cell::Cell<bool> = const { std::cell::Cell::new(false) };
+}
+
+fn with_memo<R>(f: impl FnOnce(&mut SchedMemo) -> R) -> R {
+    let mut g = SCHED_MEMO.lock().unwrap_or_else(|e| e.into_inner());
+    let m = g.get_or_insert_with(|| SchedMemo {
+        table: Map::new(),
+        hits: 0,
+        misses: 0,
+        audits: 0,
+        audit_every: 1024,
+        audit_failures: 0,
+        solve_nanos: 0,
+    });
+    f(m)
+}
+
+#[derive(Debug, Clone, Copy, Default)]
+pub struct MemoStats {
+    pub hits: u64,
+    pub misses: u64,
+    pub audits: u64,
+    pub audit_failures: u64,
+    pub entries: u64,
+    pub solve_ms: u64,
+}
+
+/// Switch the scheduling memo (snapshot hash -> solver result) on or off for the calling
+/// thread. With the memo off `SimServer::run_scheduling` is exactly `run_scheduling_inner`.
+pub fn set_sched_memo(enabled: bool) {
+    MEMO_ENABLED.with(|m| m.set(enabled));
+}
+
+pub fn clear_sched_memo() {
+    with_memo(|m| m.table.clear());
+}
+
+pub fn sched_memo_stats() -> MemoStats {
+    with_memo(|m| MemoStats {
+        hits: m.hits,
+        misses: m.misses,
+        audits: m.audits,
+        audit_failures: m.audit_failures,
+        entries: m.table.len() as u64,
+        solve_ms: m.solve_nanos / 1_000_000,
+    })
+}
+
+fn clone_solution(s: &SchedulingSolution) -> SchedulingSolution {
+    SchedulingSolution {
+        sn_counts: s.sn_counts.clone(),
+        mn_workers: s.mn_workers.clone(),
+        is_optimal: s.is_optimal,
+    }
+}
+
+fn solution_repr(s: &SchedulingSolution) -> String {
+    format!("{s:?}")
+}
+
+fn hash128<T: std::hash::Hash>(value: &T, extra: u64) -> u128 {
+    use std::hash::Hasher;
+    let mut h1 = std::collections::hash_map::DefaultHasher::new();
+    h1.write_u64(0x9e37_79b9_7f4a_7c15 ^ extra);
+    value.hash(&mut h1);
+    let mut h2 = std::collections::hash_map::DefaultHasher::new();
+    h2.write_u64(0xc2b2_ae3d_27d4_eb4f ^ extra.rotate_left(17));
+    value.hash(&mut h2);
+    ((h1.finish() as u128) << 64) | h2.finish() as u128
+}
+
+/// Plain-data rendering of what one scheduling round decided (for oracles on placements).
+#[derive(Debug, Clone, Default, PartialEq, Eq, Hash, serde::Serialize)]
+pub struct RoundReport {
+    pub is_optimal: bool,
+    /// (worker, task, variant) directly assigned in this round (not pre-sent)
+    pub assigned: Vec<(u32, TaskId, u8)>,
+    pub prefills: Vec<(u32, TaskId)>,
+    pub retracts: Vec<(u32, TaskId)>,
+    pub mn_tasks: Vec<TaskId>,
+    pub need_more_compute: bool,
+    pub no_progress: bool,
+}
+
+// ---------------------------------------------------------------------------------------------
+// Simulated server
+// ---------------------------------------------------------------------------------------------
+
+pub struct SimServer {
+    core_ref: CoreRef,
+    comm_ref: CommSenderRef,
+    epoch: Instant,
+    offset: Duration,
+}
+
+#[derive(Debug, Clone, Copy, PartialEq, Eq)]
+pub enum DeliverOutcome {
+    Processed,
+    /// the worker announced that it stops (the real loop returns this reason)
+    WorkerStops(LostWorkerReason),
+    /// the frame could not be decoded (the real loop ends the connection)
+    DecodeError,
+}
+
+impl SimServer {
+    /// `server_start` without the listener, the connection acceptor and the scheduler task.
+    pub fn new(
+        server_uid: &str,
+        worker_id_initial_value: WorkerId,
+        idle_timeout: Option<Duration>,
+        scheduler_config: SchedulerConfig,
+    ) -> (SimServer, ServerRef) {
+        let scheduler_wakeup = Rc::new(Notify::new());
+        let comm_ref = CommSenderRef::new(scheduler_wakeup, false);
+        let core_ref = CoreRef::new(
+            0,
+            None,
+            idle_timeout,
+            None,
+            server_uid.to_string(),
+            worker_id_initial_value,
+            scheduler_config,
+        );
+        let server_ref = ServerRef::verif_new(core_ref.clone(), comm_ref.clone());
+        (
+            SimServer {
+                core_ref,
+                comm_ref,
+                epoch: Instant::now(),
+                offset: Duration::ZERO,
+            },
+            server_ref,
+        )
+    }
+
+    /// Simulated "now": a fixed epoch plus an offset the harness controls.
+    pub fn now(&self) -> Instant {
+        self.epoch + self.offset
+    }
+
+    pub fn advance(&mut self, d: Duration) {
+        self.offset += d;
+    }
+
+    pub fn offset(&self) -> Duration {
+        self.offset
+    }
+
+    /// The registration block of `worker_rpc_loop`. The first frame in the returned receiver
+    /// is the serialized `WorkerRegistrationResponse`, exactly as on a real connection.
+    pub fn connect_worker(
+        &self,
+        mut configuration: WorkerConfiguration,
+    ) -> (WorkerId, UnboundedReceiver<Bytes>) {
+        let core_ref = &self.core_ref;
+        let comm_ref = &self.comm_ref;
+        let worker_id = core_ref.get_mut().new_worker_id();
+        assert!(configuration.heartbeat_interval.as_millis() > 150);
+        sync_worker_configuration(&mut configuration, *core_ref.get().idle_timeout());
+        let (queue_sender, queue_receiver) = tokio::sync::mpsc::unbounded_channel::<Bytes>();
+        {
+            let mut core = core_ref.get_mut();
+            for item in &configuration.resources.resources {
+                core.get_or_create_resource_id(&item.name);
+            }
+            let now = self.now();
+            let worker = Worker::new(
+                worker_id,
+                configuration.clone(),
+                &core.create_resource_map(),
+                now,
+            );
+            on_new_worker(&mut core, &mut *comm_ref.get_mut(), worker);
+        }
+        let message: WorkerRegistrationResponse = {
+            let core = core_ref.get();
+            WorkerRegistrationResponse {
+                worker_id,
+                resource_names: core.create_resource_map().into_vec(),
+                resource_rq_map: core.get_resource_rq_map().clone(),
+                other_workers: core
+                    .get_workers()
+                    .filter_map(|w| {
+                        if w.id != worker_id {
+                            Some(NewWorkerMsg {
+                                worker_id: w.id(),
+                                address: w.configuration().listen_address.clone(),
+                                resources: w.resources.to_transport(),
+                            })
+                        } else {
+                            None
+                        }
+                    })
+                    .collect(),
+                server_idle_timeout: *core.idle_timeout(),
+                server_uid: core.server_uid().to_string(),
+                worker_overview_interval_override: if core.worker_overview_listeners() > 0 {
+                    Some(DEFAULT_WORKER_OVERVIEW_INTERVAL)
+                } else {
+                    None
+                },
+            }
+        };
+        queue_sender
+            .send(serialize(&message).unwrap().into())
+            .unwrap();
+        comm_ref.get_mut().add_worker(worker_id, queue_sender);
+        (worker_id, queue_receiver)
+    }
+
+    /// One frame through the real `worker_receive_loop` (the stream ends after the frame).
+    pub fn deliver_from_worker(&self, worker_id: WorkerId, frame: &[u8]) -> DeliverOutcome {
+        let stream = futures::stream::iter(vec![Ok::<BytesMut, std::io::Error>(BytesMut::from(
+            frame,
+        ))]);
+        let fut = worker_receive_loop(
+            self.core_ref.clone(),
+            self.comm_ref.clone(),
+            worker_id,
+            stream,
+            None,
+        );
+        match fut
+            .now_or_never()
+            .expect("worker_receive_loop must not wait on anything but its stream")
+        {
+            Ok(None) => DeliverOutcome::Processed,
+            Ok(Some(reason)) => DeliverOutcome::WorkerStops(match reason {
+                WorkerStopReason::IdleTimeout => LostWorkerReason::IdleTimeout,
+                WorkerStopReason::TimeLimitReached => LostWorkerReason::TimeLimitReached,
+                WorkerStopReason::Interrupted => LostWorkerReason::ConnectionLost,
+            }),
+            Err(_) => DeliverOutcome::DecodeError,
+        }
+    }
+
+    /// The last statements of `worker_rpc_loop`.
+    pub fn lose_worker(&self, worker_id: WorkerId, reason: LostWorkerReason) {
+        let mut core = self.core_ref.get_mut();
+        let mut comm = self.comm_ref.get_mut();
+        let reason = core
+            .get_worker(worker_id)
+            .stop_reason
+            .map(|(r, _)| r)
+            .unwrap_or(reason);
+        comm.remove_worker(worker_id);
+        on_remove_worker(&mut core, &mut *comm, worker_id, reason);
+    }
+
+    pub fn scheduling_requested(&self) -> bool {
+        self.comm_ref.get().get_scheduling_flag()
+    }
+
+    /// The body of `scheduler_loop` after its wake-up and pacing sleeps:
+    /// `run_scheduling` until it does not ask for more compute, then reset the flag.
+    /// `run_scheduling_inner` is spelled out so that the (optional) memo can sit between
+    /// `create_task_batches` and `create_task_mapping`.
+    pub fn run_scheduling(&self) -> Vec<RoundReport> {
+        let now = self.now();
+        let mut reports = Vec::new();
+        loop {
+            let mut core = self.core_ref.get_mut();
+            let mut comm = self.comm_ref.get_mut();
+            let report = self.scheduling_inner(&mut core, &mut comm, now);
+            let again = report.need_more_compute;
+            reports.push(report);
+            if !again || reports.len() > 8 {
+                break;
+            }
+        }
+        self.comm_ref.get_mut().reset_scheduling_flag();
+        reports
+    }
+
+    fn scheduling_inner(
+        &self,
+        core: &mut Core,
+        comm: &mut crate::internal::server::comm::CommSender,
+        now: Instant,
+    ) -> RoundReport {
+        let memo_on = MEMO_ENABLED.with(|m| m.get());
+        let batches = create_task_batches(core, now, None);
+        let solution = if memo_on {
+            let key = {
+                let snap = core_snapshot(core, Vec::new(), false, self.epoch);
+                hash128(&snap, self.offset.as_millis() as u64)
+            };
+            let (cached, audit) = with_memo(|m| {
+                let r = m.table.get(&key).map(clone_solution);
+                if r.is_some() {
+                    m.hits += 1;
+                } else {
+                    m.misses += 1;
+                }
+                let audit = r.is_some() && m.audit_every > 0 && m.hits % m.audit_every == 0;
+                (r, audit)
+            });
+            match cached {
+                Some(s) => {
+                    if audit {
+                        let fresh = run_scheduling_solver(core, now, &batches, None);
+                        let same = solution_repr(&fresh) == solution_repr(&s);
+                        with_memo(|m| {
+                            m.audits += 1;
+                            if !same {
+                                m.audit_failures += 1;
+                            }
+                        });
+                    }
+                    s
+                }
+                None => {
+                    let t0 = Instant::now();
+                    let s = run_scheduling_solver(core, now, &batches, None);
+                    let dt = t0.elapsed().as_nanos() as u64;
+                    with_memo(|m| {
+                        m.solve_nanos += dt;
+                        m.table.insert(key, clone_solution(&s));
+                    });
+                    s
+                }
+            }
+        } else {
+            run_scheduling_solver(core, now, &batches, None)
+        };
+        let result = if !solution.is_optimal {
+            if solution.is_empty() {
+                SchedulerResult::NoProgress
+            } else {
+                SchedulerResult::NeedMoreCompute
+            }
+        } else {
+            SchedulerResult::Done
+        };
+        let is_optimal = solution.is_optimal;
+        let mapping = create_task_mapping(core, solution);
+        let mut report = RoundReport {
+            is_optimal,
+            need_more_compute: matches!(result, SchedulerResult::NeedMoreCompute),
+            no_progress: matches!(result, SchedulerResult::NoProgress),
+            ..Default::default()
+        };
+        for (w, up) in &mapping.workers {
+            for (t, v) in &up.assigned {
+                report.assigned.push((w.as_num(), *t, v.as_num()));
+            }
+            for t in &up.prefills {
+                report.prefills.push((w.as_num(), *t));
+            }
+            for t in &up.retracts {
+                report.retracts.push((w.as_num(), *t));
+            }
+        }
+        report.mn_tasks = mapping.mn_tasks_to_workers.clone();
+        mapping.send_messages(core, comm);
+        report
+    }
+
+    pub fn snapshot(&self) -> CoreSnapshot {
+        let comm = self.comm_ref.get();
+        core_snapshot(
+            &self.core_ref.get(),
+            comm.verif_worker_ids().iter().map(|w| w.as_num()).collect(),
+            comm.get_scheduling_flag(),
+            self.epoch,
+        )
+    }
+
+    /// Whether a connected worker could ever run some variant of the task's request
+    /// (static capability + remaining lifetime at the simulated now). Uses the real
+    /// `Worker::is_capable_to_run_rqv`.
+    pub fn capable_workers(&self, task_id: TaskId) -> Vec<u32> {
+        let core = self.core_ref.get();
+        let Some(task) = core.find_task(task_id) else {
+            return Vec::new();
+        };
+        let rqv = core.get_resource_rq(task.resource_rq_id);
+        let now = self.now();
+        core.get_workers()
+            .filter(|w| w.is_capable_to_run_rqv(rqv, now))
+            .map(|w| w.id.as_num())
+            .collect()
+    }
+
+    /// (is_multi_node, n_nodes of variant 0) of a task's request.
+    pub fn task_mn_nodes(&self, task_id: TaskId) -> Option<u32> {
+        let core = self.core_ref.get();
+        let task = core.find_task(task_id)?;
+        let rqv = core.get_resource_rq(task.resource_rq_id);
+        if rqv.is_multi_node() {
+            Some(rqv.get(0.into()).n_nodes())
+        } else {
+            None
+        }
+    }
+
+    /// Per registered request and variant: the amounts asked per resource id (in fractions;
+    /// `u64::MAX` for `all`), n_nodes and min_time in ms. For exact re-computation of
+    /// reservations by an oracle.
+    pub fn request_table(&self) -> Vec<Vec<RequestSnap>> {
+        let core = self.core_ref.get();
+        core.get_resource_rq_map()
+            .iter()
+            .map(|rqv| {
+                rqv.requests()
+                    .iter()
+                    .map(|rq| RequestSnap {
+                        n_nodes: rq.n_nodes(),
+                        min_time_ms: rq.min_time().as_millis() as u64,
+                        entries: rq
+                            .entries()
+                            .iter()
+                            .map(|e| {
+                                (
+                                    e.resource_id.as_num(),
+                                    e.request
+                                        .amount_or_none_if_all()
+                                        .map(|a| a.total_fractions())
+                                        .unwrap_or(u64::MAX),
+                                    format!("{:?}", e.request),
+                                )
+                            })
+                            .collect(),
+                    })
+                    .collect()
+            })
+            .collect()
+    }
+
+    /// Frees the `Rc` cycles of a system that is being discarded.
+    pub fn dispose(&self) {
+        self.comm_ref.get_mut().verif_clear();
+    }
+}
+
+#[derive(Debug, Clone, PartialEq, Eq, Hash, serde::Serialize)]
+pub struct RequestSnap {
+    pub n_nodes: u32,
+    pub min_time_ms: u64,
+    /// (resource id, amount in fractions or u64::MAX for `all`, Debug of the policy)
+    pub entries: Vec<(u32, u64, String)>,
+}
+
+// ---------------------------------------------------------------------------------------------
+// Simulated worker
+// ---------------------------------------------------------------------------------------------
+
+#[derive(Debug, Clone, PartialEq, Eq, Hash, serde::Serialize)]
+pub struct RunningTaskSnap {
+    pub id: TaskId,
+    pub instance_id: u32,
+    pub rv: u8,
+    pub rq_id: u32,
+    pub allocation: AllocationSnap,
+}
+
+#[derive(Debug, Clone, PartialEq, Eq, Hash, serde::Serialize)]
+pub struct WorkerSnapshot {
+    pub worker_id: u32,
+    pub running: Vec<RunningTaskSnap>,
+    /// backlog of pre-sent tasks per request id, in `Vec` order (started from the end)
+    pub prefilled: Vec<(u32, Vec<(TaskId, u32)>)>,
+    pub blocked: Vec<(u32, u8)>,
+    pub pools: Vec<PoolSnap>,
+    pub concise: ConciseSnap,
+    pub known_workers: Vec<u32>,
+    pub n_requests: u32,
+}
+
+pub struct SimWorker {
+    state_ref: WorkerStateRef,
+}
+
+impl SimWorker {
+    /// The state construction of `run_worker`, from the registration frame the server sent.
+    pub fn new(
+        registration_frame: &[u8],
+        mut configuration: WorkerConfiguration,
+        launcher: Box<dyn TaskLauncher>,
+    ) -> (SimWorker, WorkerId, UnboundedReceiver<Bytes>) {
+        let WorkerRegistrationResponse {
+            worker_id,
+            other_workers,
+            resource_names,
+            resource_rq_map,
+            server_idle_timeout,
+            server_uid,
+            worker_overview_interval_override,
+        } = deserialize(registration_frame).expect("registration frame");
+        let (queue_sender, queue_receiver) = tokio::sync::mpsc::unbounded_channel::<Bytes>();
+        sync_worker_configuration(&mut configuration, server_idle_timeout);
+        let comm = WorkerComm::new(queue_sender);
+        let state_ref = WorkerStateRef::new(
+            comm,
+            worker_id,
+            configuration,
+            ResourceIdMap::from_vec(resource_names),
+            resource_rq_map,
+            launcher,
+            server_uid,
+        );
+        {
+            let mut state = state_ref.get_mut();
+            state.worker_overview_interval_override = worker_overview_interval_override;
+            for worker_info in other_workers {
+                state.new_worker(worker_info);
+            }
+        }
+        (SimWorker { state_ref }, worker_id, queue_receiver)
+    }
+
+    /// One frame through the real `process_worker_message` (the body of
+    /// `worker_message_loop`). Returns `true` if the worker was told to stop.
+    /// Must be called inside a tokio `LocalSet` (task futures are `spawn_local`ed).
+    pub fn deliver(&self, frame: &[u8]) -> bool {
+        let message: ToWorkerMessage = deserialize(frame).expect("frame from server");
+        let mut state = self.state_ref.get_mut();
+        process_worker_message(&mut state, message)
+    }
+
+    pub fn snapshot(&self) -> WorkerSnapshot {
+        let state = self.state_ref.get();
+        let (pools, concise) =
+            crate::internal::worker::resources::verif::allocator_snapshot(&state.allocator);
+        WorkerSnapshot {
+            worker_id: state.worker_id.as_num(),
+            running: state
+                .running_tasks
+                .values()
+                .map(|rt| RunningTaskSnap {
+                    id: rt.task.id,
+                    instance_id: rt.task.instance_id.as_num(),
+                    rv: rt.rv_id.as_num(),
+                    rq_id: rt.task.resource_rq_id.as_num(),
+                    allocation: allocation_snapshot(&rt.allocation),
+                })
+                .collect(),
+            prefilled: state
+                .prefilled_tasks
+                .iter()
+                .map(|(rq, ts)| {
+                    (
+                        rq.as_num(),
+                        ts.iter().map(|t| (t.id, t.instance_id.as_num())).collect(),
+                    )
+                })
+                .collect(),
+            blocked: state
+                .blocked_requests
+                .iter()
+                .map(|(rq, rv)| (rq.as_num(), rv.as_num()))
+                .collect(),
+            pools,
+            concise,
+            known_workers: state.worker_addresses.keys().map(|w| w.as_num()).collect(),
+            n_requests: state.resource_rq_map.size() as u32,
+        }
+    }
+
+    /// What `send_overview_loop` would report as `WorkerOverview.running_tasks`.
+    pub fn overview_running_tasks(&self) -> Vec<(TaskId, AllocationSnap)> {
+        let state = self.state_ref.get();
+        state
+            .running_tasks
+            .values()
+            .map(|t| (t.task.id, allocation_snapshot(&t.allocation)))
+            .collect()
+    }
+
+    pub fn dispose(&self) {
+        self.state_ref.get_mut().verif_clear_state_ref();
+    }
+}
+
+/// Decode helpers so that a harness can look into frames without access to private modules.
+pub fn decode_to_worker(frame: &[u8]) -> Option<ToWorkerMessage> {
+    deserialize(frame).ok()
+}
+
+pub fn decode_from_worker(frame: &[u8]) -> Option<FromWorkerMessage> {
+    deserialize(frame).ok()
+}
+
+pub fn encode_from_worker(msg: &FromWorkerMessage) -> Vec<u8> {
+    serialize(msg).unwrap()
+}
